@@ -12,6 +12,7 @@ import Driver.Cmd.Container
 import Driver.Cmd.TracePipeline
 import Driver.Cmd.EndToEnd
 import Driver.Cmd.PyIR
+import Driver.Cmd.PyIRFl
 /-
   Line-protocol driver: one operation per line on stdin, one canonical answer per line on
   stdout.  Byte strings and texts travel as hex.  Imports no Mathlib (so it links).
@@ -20,7 +21,7 @@ import Driver.Cmd.PyIR
 open Driver
 
 def allCommands : List (String × Cmd) :=
-  Driver.Kevent.commands ++ Driver.Pairing.commands ++ Driver.Render.commands ++ Driver.Callstacks.commands ++ Driver.TraceCodes.commands ++ Driver.Filters.commands ++ Driver.Format.commands ++ Driver.OsLog.commands ++ Driver.Flags.commands ++ Driver.Trace.commands ++ Driver.Container.commands ++ Driver.TracePipeline.commands ++ Driver.EndToEnd.commands ++ Driver.PyIR.commands
+  Driver.Kevent.commands ++ Driver.Pairing.commands ++ Driver.Render.commands ++ Driver.Callstacks.commands ++ Driver.TraceCodes.commands ++ Driver.Filters.commands ++ Driver.Format.commands ++ Driver.OsLog.commands ++ Driver.Flags.commands ++ Driver.Trace.commands ++ Driver.Container.commands ++ Driver.TracePipeline.commands ++ Driver.EndToEnd.commands ++ Driver.PyIR.commands ++ Driver.PyIRFl.commands
 
 def dispatch (line : String) : String :=
   match (line.trimAscii.toString.splitOn " ").filter (· ≠ "") with
